@@ -293,6 +293,10 @@ def nibabel_image_to_precomputed(img,
         prescaling_inter = proxy.inter
         proxy._slope = prescaling_slope * postscaling_slope
         proxy._inter = prescaling_inter * postscaling_slope + postscaling_inter
+        # nibabel does not convert to float64 if the combined scaling turns
+        # out to be the identity (slope 1, intercept 0)
+        zero_index = tuple(0 for _ in shape)
+        input_dtype = proxy[zero_index].dtype
 
     # Transformations applied to the voxel values
     chunk_transformer = (
